@@ -59,6 +59,9 @@ Verdict(r) ==
     ELSE IF r.expect = "must_succeed" THEN "valid_command_line_refused"
     ELSE IF r.expect = "help" THEN "help_request_refused"
     ELSE IF Len(r.err_marks) = 0 THEN "error_exit_without_message"
+    \* refused while building: the format is known, only its own marker will do
+    ELSE IF r.expect = "any_strict_marker" /\ ~Shielded(r.err_marks, {Marker(r.fmt), Bare(Marker(r.fmt))})
+         THEN "error_not_shielded_with_the_marker_of_the_chosen_format"
     ELSE IF ~Shielded(r.err_marks, ErrMarks(r)) THEN "error_message_not_shielded"
     ELSE IF ~Shielded(r.out_marks, OutMarks(r)) THEN "partial_output_on_error"
     ELSE "ok"
